@@ -49,7 +49,9 @@ class MCMCSampler(Sampler):
         Input samples are in the transformed space.
         """
         x, log_abs_det_jacobian = self.preconditioning_transform.inverse(z)
-        samples = Samples(x, xp=self.xp, dtype=self.dtype)
+        samples = Samples(
+            x, xp=self.xp, dtype=self.dtype, parameters=self.parameters
+        )
         samples.log_prior = self.log_prior(samples)
         samples.log_likelihood = self.log_likelihood(samples)
         log_prob = (
@@ -95,7 +97,11 @@ class Emcee(MCMCSampler):
 
         x_evidence, log_q = self.prior_flow.sample_and_log_prob(n_samples)
         samples_evidence = Samples(
-            x_evidence, log_q=log_q, xp=self.xp, dtype=self.dtype
+            x_evidence,
+            log_q=log_q,
+            xp=self.xp,
+            dtype=self.dtype,
+            parameters=self.parameters,
         )
         samples_evidence.log_prior = self.log_prior(samples_evidence)
         samples_evidence.log_likelihood = self.log_likelihood(samples_evidence)
